@@ -449,3 +449,191 @@ M('C07', 'projection-skips-first-visible', QX,
   ('R-PIPELINE', 'execute_select'))
 T('C07', 'twin-columns-truthiness-filter', QC,
   "        return [t for t in self.c_targets if t.name is not None]", "        return [t for t in self.c_targets if t.name]")
+
+# ---------------------------------------------------------------------- C08
+R('C08', 'regress-D14-nested-select-table', '052c1c9-a-subquery-with-a-FROM-clause-no-longer-changes-th.diff',
+  ('R-REENTRANT', 'Compiler.table'))
+R('C08', 'regress-D3-subquery-equality', '8eceace-IN-subquery-nodes-compare-by-their-subquery.diff',
+  ('R-EQFAITH', 'EvalConstantSubquery1D'))
+M('C08', 'restore-only-on-success', CO,
+  "        table = self.table\n        try:\n            return self._compile_select(node)\n        finally:\n            self.table = table",
+  "        table = self.table\n        query = self._compile_select(node)\n        self.table = table\n        return query",
+  ('R-REENTRANT', 'Compiler.table'))
+M('C08', 'subquery-index-over-all-targets', QC,
+  "        for i, target in enumerate(target for target in subquery.c_targets if target.name is not None):\n            column = self.column(i, target.name, target.c_expr.dtype)\n            self.columns[target.name] = column()",
+  "        for i, target in enumerate(subquery.c_targets):\n            if target.name is None:\n                continue\n            column = self.column(i, target.name, target.c_expr.dtype)\n            self.columns[target.name] = column()",
+  ('R-VISFILTER', 'SubqueryTable'))
+M('C08', 'in-subquery-columns-guard-deleted', CO,
+  "            if len(right.columns) != 1:\n                raise CompilationError('subquery has too many columns', node.right)\n",
+  "", ('R-GUARDS', 'in-subquery-columns'))
+T('C08', 'twin-restore-with-else', CO,
+  "        table = self.table\n        try:\n            return self._compile_select(node)\n        finally:\n            self.table = table",
+  "        table = self.table\n        try:\n            query = self._compile_select(node)\n            return query\n        finally:\n            self.table = table")
+
+# ---------------------------------------------------------------------- C09
+R('C09', 'regress-D15-placeholder-name-written', '88ee86d-compiling-a-statement-with-positional-placeholders.diff',
+  ('R-INPUTMUT', 'Compiler.compile'))
+R('C09', 'regress-D16-balance-lru-cache', '0ef1053-the-running-balance-is-updated-once-per-row-whatev.diff',
+  ('R-SHARED', 'balance'))
+M2('C09', 'memo-on-account-sortkey',
+   [(QE, "import copy\nimport datetime\n", "import copy\nimport functools\nimport datetime\n"),
+    (QE, "@function([str], str, pass_context=True)\ndef account_sortkey(context, acc):",
+     "@function([str], str, pass_context=True)\n@functools.lru_cache(maxsize=None)\ndef account_sortkey(context, acc):")],
+   ('R-SHARED', 'account_sortkey'))
+M2('C09', 'module-level-scratch-dict',
+   [(QE, "NONENONE = None, None\n", "NONENONE = None, None\n_SEEN = {}\n"),
+    (QE, "def open_date(context, acc):\n    \"\"\"Get the date of the open directive of the account.\"\"\"\n    open_entry, _ = context.tables['accounts'].accounts.get(acc, NONENONE)",
+     "def open_date(context, acc):\n    \"\"\"Get the date of the open directive of the account.\"\"\"\n    _SEEN[acc] = True\n    open_entry, _ = context.tables['accounts'].accounts.get(acc, NONENONE)")],
+   ('R-SHARED', 'open_date'))
+M('C09', 'where-clause-normalised-in-place', CO,
+  "        # Bind the WHERE expression to the execution environment.\n        c_where = self._compile(node.where_clause)",
+  "        # Bind the WHERE expression to the execution environment.\n        c_where = self._compile(node.where_clause)\n        node.where_clause = None",
+  ('R-INPUTMUT', '_compile_select'))
+M('C09', 'entries-sorted-in-place', QE,
+  "        entries = self.entries\n        options = self.options\n",
+  "        entries = self.entries\n        entries.sort(key=lambda entry: entry.date)\n        options = self.options\n",
+  ('R-INPUTMUT', 'BeanTable.prepare'))
+M('C09', 'posting-meta-defaulted-in-place', QE,
+  "    meta = context.posting.meta\n    # Postings for pad transactions have their meta fields set to\n    # None. See https://github.com/beancount/beancount/issues/767\n    if meta is None:\n        return None\n    return meta[\"filename\"]",
+  "    meta = context.posting.meta\n    if meta is None:\n        return None\n    meta.setdefault('filename', '')\n    return meta[\"filename\"]",
+  ('R-INPUTMUT', 'filename'))
+M('C09', 'fold-impure-functions', CO,
+  "        if all(isinstance(operand, EvalConstant) for operand in operands) and function.pure:",
+  "        if all(isinstance(operand, EvalConstant) for operand in operands):",
+  ('R-FOLDPURE', '_function'))
+M('C09', 'fold-binary-with-one-constant', CO,
+  "                    if isinstance(left, EvalConstant) and isinstance(right, EvalConstant):",
+  "                    if isinstance(left, EvalConstant) or isinstance(right, EvalConstant):",
+  ('R-FOLDPURE', '_binaryop'))
+M('C09', 'placeholders-numbered-in-walk-order', CO,
+  "                self.positions = {id(placeholder): i for i, placeholder in enumerate(\n                    sorted(placeholders, key=lambda node: node.parseinfo.pos))}",
+  "                self.positions = {id(placeholder): i for i, placeholder in enumerate(placeholders)}",
+  ('R-PLACEHOLDER', 'Compiler.compile'))
+T('C09', 'twin-cache-on-compiler-instance', CO,
+  "        self.parameters = parameters\n", "        self.parameters = parameters\n        self.cache = {}\n")
+
+# ---------------------------------------------------------------------- C10
+R('C10', 'regress-D17-iter-does-not-consume', 'd1b1502-iterating-over-a-cursor-consumes-the-rows-it-deliv.diff',
+  ('R-FETCHSIB', 'Cursor.__iter__'))
+R('C10', 'regress-D18-rowcount-shrinks', 'e5a17e6-Cursor-rowcount-is-the-number-of-rows-produced-by-.diff',
+  ('R-ROWCOUNT', 'Cursor.rowcount'))
+M('C10', 'fetchmany-forgets-position', CU,
+  "        rows = self._rows[:n]\n        self._rows = self._rows[n:]\n        self._pos += len(rows)\n        return rows",
+  "        rows = self._rows[:n]\n        self._rows = self._rows[n:]\n        return rows", ('R-FETCHSIB', 'Cursor.fetchmany'))
+M('C10', 'fetchmany-keeps-overlap', CU,
+  "        self._rows = self._rows[n:]", "        self._rows = self._rows[n - 1:]", ('R-FETCHSIB', 'Cursor.fetchmany'))
+M('C10', 'fetchall-keeps-buffer', CU,
+  "        rows = self._rows\n        self._rows = []\n        self._pos += len(rows)",
+  "        rows = self._rows\n        self._pos += len(rows)", ('R-FETCHSIB', 'Cursor.fetchall'))
+M('C10', 'fetchone-returns-empty-list-when-exhausted', CU,
+  "        if self._rows is None or not len(self._rows):\n            return None", "        if self._rows is None or not len(self._rows):\n            return []",
+  ('R-FETCHSIB', 'Cursor.fetchone'))
+M('C10', 'fetchone-counts-twice', CU,
+  "        self._pos += 1\n        return self._rows.pop(0)", "        self._pos += 2\n        return self._rows.pop(0)", ('R-FETCHSIB', 'Cursor.fetchone'))
+M('C10', 'execute-keeps-position', CU,
+  "        self._rowcount = len(rows)\n        self._pos = 0\n", "        self._rowcount = len(rows)\n", ('R-RESET', 'Cursor.execute'))
+M('C10', 'rowcount-counts-description', CU,
+  "        self._rowcount = len(rows)", "        self._rowcount = len(description)", ('R-ROWCOUNT', 'Cursor.execute'))
+M('C10', 'rowcount-initially-zero', CU,
+  "        self._rowcount = -1", "        self._rowcount = 0", ('R-ROWCOUNT', 'Cursor.rowcount'))
+M('C10', 'column-len-six', CU,
+  "    def __len__(self):\n        return 7", "    def __len__(self):\n        return 6", ('R-COLUMN7', 'Column.__len__'))
+M('C10', 'column-scale-zero', CU,
+  "    def scale(self):\n        return None", "    def scale(self):\n        return 0", ('R-COLUMN7', 'Column.scale'))
+M('C10', 'apilevel-one', 'beanquery/__init__.py', "apilevel = '2.0'", "apilevel = '1.0'", ('R-MODCONST', 'apilevel'))
+M('C10', 'programmingerror-reparented', 'beanquery/errors.py',
+  "class ProgrammingError(DatabaseError):", "class ProgrammingError(Error):", ('R-EXCTREE', 'ProgrammingError'))
+T('C10', 'twin-fetchall-via-fetchmany', CU,
+  "        rows = self._rows\n        self._rows = []\n        self._pos += len(rows)\n        return rows",
+  "        if self._rows is None:\n            return []\n        return self.fetchmany(len(self._rows))")
+T('C10', 'twin-fetchone-explicit-length', CU,
+  "        if self._rows is None or not len(self._rows):", "        if self._rows is None or len(self._rows) == 0:")
+
+# ---------------------------------------------------------------------- C12
+R('C12', 'regress-D16-balance-lru-cache', '0ef1053-the-running-balance-is-updated-once-per-row-whatev.diff',
+  ('R-ONCEPERROW', 'balance'))
+M('C12', 'balance-unguarded', QE,
+  "    if context.balance_rowid != context.rowid:\n        context.balance.add_position(context.posting)\n        context.balance_rowid = context.rowid\n",
+  "    context.balance.add_position(context.posting)\n", ('R-ONCEPERROW', 'balance'))
+M('C12', 'balance-guard-never-marked', QE,
+  "        context.balance.add_position(context.posting)\n        context.balance_rowid = context.rowid\n",
+  "        context.balance.add_position(context.posting)\n", ('R-ONCEPERROW', 'balance'))
+M('C12', 'balance-returns-live-inventory', QE,
+  "        context.balance_rowid = context.rowid\n    return copy.copy(context.balance)", "        context.balance_rowid = context.rowid\n    return context.balance",
+  ('R-ONCEPERROW', 'balance'))
+M('C12', 'rowid-bumped-per-transaction', QE,
+  "                context.entry = entry\n                for posting in entry.postings:\n                    context.rowid += 1\n                    context.posting = posting",
+  "                context.entry = entry\n                context.rowid += 1\n                for posting in entry.postings:\n                    context.posting = posting",
+  ('R-ONCEPERROW', 'PostingsTable.__iter__'))
+M('C12', 'sum-position-adds-nulls', QE,
+  "        value = self.operands[0](context)\n        if value is not None:\n            store[self.handle].add_position(value)",
+  "        value = self.operands[0](context)\n        store[self.handle].add_position(value)", ('R-AGGCLASS', 'aggregate:sum(Position)'))
+M('C12', 'sum-amount-uses-add-position', QE,
+  "            store[self.handle].add_amount(value)", "            store[self.handle].add_position(value)", ('R-AGGCLASS', 'aggregate:sum(Amount)'))
+T('C12', 'twin-balance-guard-equality-early', QE,
+  "    if context.balance_rowid != context.rowid:\n        context.balance.add_position(context.posting)\n        context.balance_rowid = context.rowid\n    return copy.copy(context.balance)",
+  "    if context.balance_rowid == context.rowid:\n        return copy.copy(context.balance)\n    context.balance.add_position(context.posting)\n    context.balance_rowid = context.rowid\n    return copy.copy(context.balance)")
+
+# ---------------------------------------------------------------------- C17
+R('C17', 'regress-D19-inventory-null', '00f9d2b-numberify-handles-NULL-in-inventory-columns.diff',
+  ('R-NONEFLOW', 'Inventory'))
+M('C17', 'position-converter-no-quantize', NU,
+  "            number = pos.units.number\n            if dformat:\n                number = dformat.quantize(pos.units.number, self.currency)",
+  "            number = pos.units.number", ('R-SIBLINGS', 'PositionConverter'))
+M('C17', 'amount-census-ascending', NU,
+  "    return [AmountConverter('{} ({})'.format(name, currency), index, currency)\n            for currency, _ in sorted(currency_map.items(),\n                                      key=lambda item: (item[1], item[0]),\n                                      reverse=True)]",
+  "    return [AmountConverter('{} ({})'.format(name, currency), index, currency)\n            for currency, _ in sorted(currency_map.items(),\n                                      key=lambda item: (item[1], item[0]))]",
+  ('R-SIBLINGS', 'Amount'))
+M('C17', 'position-converter-null-test-dropped', NU,
+  "        if pos and pos.units.currency == self.currency:", "        if pos.units.currency == self.currency:", ('R-NONEFLOW', 'PositionConverter'))
+M('C17', 'inventory-name-template', NU,
+  "    return [InventoryConverter('{} ({})'.format(name, currency), index, currency)",
+  "    return [InventoryConverter('{} [{}]'.format(name, currency), index, currency)", ('R-SIBLINGS', 'Inventory'))
+M('C17', 'identity-converter-wrong-index', NU,
+  "            converters.append(IdentityConverter(column.name, column.datatype, index))",
+  "            converters.append(IdentityConverter(column.name, column.datatype, len(converters)))", ('R-IDENTITY', 'numberify_results'))
+M('C17', 'amount-quantizes-to-wrong-currency', NU,
+  "                number = dformat.quantize(number, self.currency)", "                number = dformat.quantize(number, vamount.currency[:0])",
+  ('R-SIBLINGS', 'AmountConverter'))
+T('C17', 'twin-rename-local', NU,
+  "        vamount = drow[self.index]\n        if vamount and vamount.currency == self.currency:\n            number = vamount.number",
+  "        cell = drow[self.index]\n        vamount = cell\n        if vamount and vamount.currency == self.currency:\n            number = vamount.number")
+
+# ---------------------------------------------------------------------- C18
+R('C18', 'regress-D20-int-overflow', '83e742f-int---of-an-infinite-decimal-is-NULL.diff', ('R-CASTTOTAL', 'function:int('))
+R('C18', 'regress-D21-date-overflow', '040101f-date-y--m--d--with-out-of-range-integers-is-NULL.diff', ('R-CASTTOTAL', 'function:date(int, int, int)'))
+M('C18', 'int-cast-typeerror-not-caught', QE,
+  "    except (ValueError, TypeError, OverflowError):\n        return None\n\n\n@function([Decimal], Decimal, name='decimal')",
+  "    except (ValueError, OverflowError):\n        return None\n\n\n@function([Decimal], Decimal, name='decimal')", ('R-CASTTOTAL', 'function:int(object)'))
+M('C18', 'decimal-cast-invalidoperation-not-caught', QE,
+  "    except (ValueError, TypeError, decimal.InvalidOperation):", "    except (ValueError, TypeError):", ('R-CASTTOTAL', 'function:decimal('))
+M('C18', 'date-cast-strptime-unprotected', QE,
+  "        try:\n            return datetime.datetime.strptime(x, '%Y-%m-%d').date()\n        except ValueError:\n            pass\n    return None",
+  "        return datetime.datetime.strptime(x, '%Y-%m-%d').date()\n    return None", ('R-CASTTOTAL', 'function:date('))
+T('C18', 'twin-int-cast-catches-base-class', QE,
+  "    except (ValueError, TypeError, OverflowError):\n        return None\n\n\n@function([Decimal], Decimal, name='decimal')",
+  "    except (ValueError, TypeError, ArithmeticError):\n        return None\n\n\n@function([Decimal], Decimal, name='decimal')")
+
+# ---------------------------------------------------------------------- C20
+R('C20', 'regress-D16-balance-lru-cache', '0ef1053-the-running-balance-is-updated-once-per-row-whatev.diff', ('R-SHARED', 'balance'))
+M('C20', 'table-update-in-place', QE,
+  "        table = copy.copy(self)\n        for name, value in kwargs.items():\n            setattr(table, name, value)\n        return table",
+  "        for name, value in kwargs.items():\n            setattr(self, name, value)\n        return self", ('R-TABLECOPY', 'BeanTable.update'))
+M('C20', 'column-instance-caches-on-self', SB,
+  "    def __call__(self, context):\n        return getattr(context, self.name)",
+  "    def __call__(self, context):\n        self.last = context\n        return getattr(context, self.name)", ('R-SHARED', 'GetAttrColumn.__call__'))
+M('C20', 'aggregator-state-on-class', QE,
+  "    def update(self, store, context):\n        store[self.handle] += 1\n",
+  "    def update(self, store, context):\n        Count.calls = getattr(Count, 'calls', 0) + 1\n        store[self.handle] += 1\n", ('R-SHARED', 'Count.update'))
+M('C20', 'table-caches-prepared-entries', QE,
+  "        if self.clear is not None:\n            entries, index = summarize.clear_opt(entries, None, options)\n\n        return entries",
+  "        if self.clear is not None:\n            entries, index = summarize.clear_opt(entries, None, options)\n\n        self.prepared = entries\n        return entries",
+  ('R-SHARED', 'BeanTable.prepare'))
+M('C20', 'registry-extended-at-execution', CO,
+  "        function = types.function_lookup(FUNCTIONS, node.fname, operands)\n        if function is None:",
+  "        function = types.function_lookup(FUNCTIONS, node.fname, operands)\n        FUNCTIONS.setdefault(node.fname, [])\n        if function is None:",
+  ('R-SHARED', '_function'))
+M('C20', 'global-counter', QX,
+  "def execute_query(query):\n", "QUERIES = 0\n\n\ndef execute_query(query):\n    global QUERIES\n    QUERIES += 1\n", ('R-SHARED', 'execute_query'))
+T('C20', 'twin-cache-on-row-context', QE,
+  "        context.balance_rowid = context.rowid\n", "        context.balance_rowid = context.rowid\n        context.last_balance = None\n")
